@@ -1,6 +1,7 @@
 (* C01 — a compiled field returns exactly what composing the user functions returns.
    Property theorems only; proofs live in Proofs/{Sim,L2,Counts,C01Main,C01Inst}.v. *)
 From Connectome Require Import Values Attrs VM Edges Evaluator L2 HashSound SpecEq C01Main C01Inst C01Readable EdgeFacts RaiseDir C01Raise Examples.
+From Connectome Require VmGen.
 From Connectome Require EvictGen GraphGen.
 Local Open Scope list_scope.
 
@@ -101,3 +102,11 @@ Theorem C01_eviction_tables_are_translated :
   /\ GraphGen.graph_multiplier = 2 /\ GraphGen.fresh_counts_per_call = true /\ GraphGen.count_rule = "path-count-dp".
 Proof. repeat split; reflexivity. Qed.
 Print Assumptions C01_eviction_tables_are_translated.
+
+(* The machine model (Model/VM.v: step, run) mirrors engine/vm.py execute arm by arm and is compared with it on full event traces.
+   The fingerprints (sha256 of the normalised body) are regenerated on every run; an edit of one of these functions re-opens this property
+   even if no sampled case shows a difference. *)
+Theorem C01_mirrored_functions_are_the_pinned_ones :
+  VmGen.shape_execute = "3390af1da9648cc9".
+Proof. repeat split; reflexivity. Qed.
+Print Assumptions C01_mirrored_functions_are_the_pinned_ones.
